@@ -10,7 +10,10 @@ CONSTANTS OpenCounts,      \* close releases exactly one handle and the document
           GateSync,        \* remote-insert / reconciliation requests require the sync flag
           GateOpen         \* reads, writes and subscriptions require an open document
 
-NoDoc == [cap |-> "none", recs |-> {}]
+NoDoc == [cap |-> "none", recs |-> {}, peers |-> <<>>]
+\* the useful-peer list of a document: most recently registered first, no duplicates, at most five (C17)
+MRU5(ps, p) == LET all == <<p>> \o SelectSeq(ps, LAMBDA x : x # p)
+               IN IF Len(all) > 5 THEN SubSeq(all, 1, 5) ELSE all
 IsOpen(st, d) == d \in DOMAIN st.open
 Ok(st, val) == [st |-> st, res |-> "ok", val |-> val]
 Fail(st, why) == [st |-> st, res |-> why, val |-> <<>>]
@@ -61,7 +64,7 @@ ActorStep(st, q) ==
          ELSE IF gatedSync THEN Fail(st, "SyncDisabled")
          ELSE IF ~PutOk(doc.recs, q.e) THEN Fail(st, "NewerEntryExists")
          ELSE Ok(SetDoc(st, d, [doc EXCEPT !.recs = PutStore(doc.recs, q.e)]), <<>>)
-    [] q.op = "SyncInit" ->
+    [] q.op \in {"SyncInit", "SyncProcess"} ->     \* both ends of a reconciliation pass the same gates
          IF gatedOpen THEN Fail(st, "NotOpen")
          ELSE IF gatedSync THEN Fail(st, "SyncDisabled") ELSE Ok(st, <<>>)
     [] q.op = "GetMany" ->
@@ -82,6 +85,10 @@ ActorStep(st, q) ==
     [] q.op = "ExportSecret" ->
          IF ~open THEN Fail(st, "NotOpen")
          ELSE IF doc.cap # "write" THEN Fail(st, "ReadOnly") ELSE Ok(st, <<>>)
+    [] q.op = "RegisterPeer" ->      \* (no open gate: the live engine registers peers of documents it merely syncs)
+         IF doc.cap = "none" THEN Fail(st, "NotFound")
+         ELSE Ok(SetDoc(st, d, [doc EXCEPT !.peers = MRU5(@, q.p)]), <<>>)
+    [] q.op = "GetPeers" -> IF gatedOpen THEN Fail(st, "NotOpen") ELSE Ok(st, doc.peers)    \* (reading asks for an open document)
     [] q.op \in {"Flush", "List"} -> Ok(st, <<>>)
     [] OTHER -> Fail(st, "BadRequest")
 =============================================================================
